@@ -90,6 +90,7 @@ class Term:
                     if ((k == "el0" and r == self.r and self.c <= c) or (k == "el1" and r == self.r and c <= self.c) or
                             (k == "ed0" and ((r == self.r and self.c <= c) or self.r < r))):
                         self.grid[r][c] = e
+            self.pw = False
         elif k == "hide":
             self.visible = False
         elif k == "show":
@@ -201,28 +202,147 @@ def caps():
     return _caps
 
 
-CUP = re.compile(r"\x1b\[(\d+);(\d+)H\Z")
+class StreamTokenizer:
+    """Turns the BYTE STREAM the window wrote into TermOps, however it was split into write() calls: a standard
+    ECMA-48 reader for the control functions the terminal spec understands, in any equivalent spelling
+    (ESC[H = ESC[1;1H, missing parameters, CR = column 0, f = H, ...).  Printable text and SGR sequences become `put`
+    with the cells the graphic state in force gives (the state is threaded through the whole stream).  A control
+    function outside the spec's vocabulary raises Untokenisable: the reference terminal cannot show it."""
+
+    def __init__(self):
+        self.g = {}             # current graphic state
+        self.sent_g = ()        # graphic state after the last emitted put
+        self.state, self.params = "ground", ""
+        self.cells = []
+
+    def _flush(self, ops):
+        fin = sgrterm.freeze(self.g)
+        if self.cells or fin != self.sent_g:
+            ops.append(("put", tuple(self.cells), fin))
+            self.sent_g = fin
+        self.cells = []
+
+    def _csi(self, params, final, ops):
+        private = params.startswith("?")
+        nums = [int(x) if x else None for x in params.lstrip("?").split(";")] if params.lstrip("?") else []
+        arg = lambda i, d: (nums[i] if i < len(nums) and nums[i] is not None else d)
+        if final == "m" and not private:
+            for n in (nums or [None]):
+                g2 = sgrterm.apply_sgr(n or 0, self.g)
+                if g2 is None:
+                    raise Untokenisable("SGR parameter %r is outside the terminal spec" % n)
+                self.g = g2
+            return
+        self._flush(ops)
+        if private:
+            key = (params, final)
+            if key == ("?25", "l"):
+                ops.append(("hide",))
+            elif key == ("?25", "h"):
+                ops.append(("show",))
+            elif key in (("?12", "l"), ("?12", "h")):
+                pass                                        # cursor blink: not part of the terminal state modelled
+            elif key == ("?1049", "h"):
+                ops.append(("altEnter",))
+            elif key == ("?1049", "l"):
+                ops.append(("altLeave",))
+            else:
+                raise Untokenisable("private mode %r%s is outside the terminal spec" % (params, final))
+        elif final in "Hf":
+            ops.append(("cup", max(arg(0, 1), 1) - 1, max(arg(1, 1), 1) - 1))
+        elif final == "G":
+            ops.append(("cha", max(arg(0, 1), 1) - 1))
+        elif final == "K" and arg(0, 0) in (0, 1):
+            ops.append(("el0",) if arg(0, 0) == 0 else ("el1",))
+        elif final == "J" and arg(0, 0) == 0:
+            ops.append(("ed0",))
+        elif final == "n" and arg(0, 0) == 6:
+            ops.append(("dsr",))
+        elif final == "t" and arg(0, 0) in (22, 23):
+            pass                                            # xterm title stack (blessed adds it to enter/exit_fullscreen)
+        else:
+            raise Untokenisable("control function CSI %r %r is outside the terminal spec" % (params, final))
+
+    def feed(self, s):
+        ops = []
+        for ch in s:
+            if self.state == "ground":
+                if ch == "\x1b":
+                    self.state = "esc"
+                elif ch == "\x9b":
+                    self.state, self.params = "csi", ""
+                elif ch == "\n":
+                    self._flush(ops)
+                    ops.append(("lf",))
+                elif ch == "\r":
+                    self._flush(ops)
+                    ops.append(("cha", 0))
+                else:
+                    self.cells.append((ch, sgrterm.freeze(self.g)))
+            elif self.state == "esc":
+                self.state = "ground"
+                if ch == "[":
+                    self.state, self.params = "csi", ""
+                elif ch == "7":
+                    self._flush(ops)
+                    ops.append(("decsc",))
+                elif ch == "8":
+                    self._flush(ops)
+                    ops.append(("decrc",))
+                else:
+                    raise Untokenisable("ESC %r is outside the terminal spec" % ch)
+            else:
+                if ch in "0123456789;?":
+                    self.params += ch
+                elif "\x40" <= ch <= "\x7e":
+                    self.state = "ground"
+                    self._csi(self.params, ch, ops)
+                else:
+                    raise Untokenisable("CSI %r then %r is outside the terminal spec" % (self.params, ch))
+        if self.state == "ground":
+            self._flush(ops)
+        return ops
+
+    def finish(self):
+        if self.state != "ground":
+            raise Untokenisable("the stream ends inside a control sequence")
 
 
-def tokenize(writes):
-    """list of strings (one per write call) -> list of ops.  A write that is one of the fixed capability strings is
-    that control function; anything else must be text with SGR sequences only, received in the default graphic state
-    (every str(FmtStr) ends in it), and becomes `put` with the cells the SGR reader gives."""
+def check_caps():
+    """the capability strings blessed emits under TERM=xterm (regenerated on every run) must read as the control
+    functions the window model stands for"""
     table = caps()
-    ops = []
-    for s in writes:
-        if s in table:
-            ops += table[s]
-            continue
-        m = CUP.match(s)
-        if m:
-            ops.append(("cup", max(int(m.group(1)), 1) - 1, max(int(m.group(2)), 1) - 1))
-            continue
-        cells, final, ctls, mode = sgrterm.display(s)
-        if ctls or mode != "ground":
-            raise Untokenisable("write %r contains control functions %r (mode %s)" % (s, ctls, mode))
-        ops.append(("put", tuple(cells), final))
+    for s, want in table.items():
+        got = StreamTokenizer().feed(s)
+        if got != want:
+            raise Untokenisable("capability string %r reads as %r, the model writes %r" % (s, got, want))
+
+
+def tokenize(writes, tok=None):
+    """what the window wrote (any split into write() calls) -> list of ops; `tok` carries the reader's state (graphic
+    state, a sequence cut by a write boundary) from one call to the next"""
+    tok = tok or StreamTokenizer()
+    ops = tok.feed("".join(writes))
+    tok.finish()
     return ops
+
+
+def norm_ops(ops):
+    """compare operation lists up to what cannot matter: adjacent `put`s merge, a `put` without cells that leaves the
+    graphic state as it was disappears (an empty line is written as the empty string)"""
+    out, g = [], ()
+    for op in ops:
+        if op[0] == "put":
+            if not op[1] and op[2] == g:
+                continue
+            if out and out[-1][0] == "put":
+                out[-1] = ("put", out[-1][1] + tuple(op[1]), op[2])
+            else:
+                out.append(("put", tuple(op[1]), op[2]))
+            g = op[2]
+        else:
+            out.append(op)
+    return out
 
 
 class Recorder(io.StringIO):
@@ -383,6 +503,23 @@ class PyteTerm:
 
     def cursor(self):
         return (self.scr.cursor.y, min(self.scr.cursor.x, self.w - 1), self.scr.cursor.x >= self.w, not self.scr.cursor.hidden)
+
+
+def ops_bytes(ops):
+    """the byte stream standing for a list of ops (for the pyte second opinion on the terminal spec)"""
+    out = []
+    for op in ops:
+        k = op[0]
+        if k == "cup":
+            out.append("\x1b[%d;%dH" % (op[1] + 1, op[2] + 1))
+        elif k == "cha":
+            out.append("\x1b[%dG" % (op[1] + 1))
+        elif k == "put":
+            out.append("".join(sgr_bytes(e) + ch for ch, e in op[1]) + sgr_bytes(op[2]))
+        else:
+            out.append({"lf": "\n", "el0": "\x1b[K", "el1": "\x1b[1K", "ed0": "\x1b[J", "hide": "\x1b[?25l",
+                        "show": "\x1b[?25h", "decsc": "\x1b7", "decrc": "\x1b8"}[k])
+    return "".join(out)
 
 
 def same_modulo_dark(a, b):
